@@ -265,11 +265,7 @@ class Gen:
                         continue
                     for s in g.nb(sp, 'connects', O.NS):
                         pairs.append((s, y))
-        # an interface that is unconnected or connected to services only (disconnect_interface deletes the single
-        # peer of its argument whatever it is; passing an interface joined to another node's interface by a plain
-        # link is outside the documented use)
-        anyif = [i for i in g.ids(O.CP) if g.typ(i) != 'ServicePort'
-                 and all(g.typ(y) == 'ServicePort' for (l, y) in g.peers(i))]
+        anyif = [i for i in g.ids(O.CP) if g.typ(i) != 'ServicePort']
         if self.bad() and g.ids(O.NS) and anyif:
             return ['disconnect', self.rng.choice(g.ids(O.NS)), self.rng.choice(anyif)]
         if not pairs:
